@@ -157,6 +157,8 @@ def oracle_invariance(ck, tier, deep):
                 "mirror-left-right": run(im[:, ::-1], wt[:, ::-1], (row, w - 1 - col)),
                 "weight-scaling": run(im, wt * float(rng.choice([7.5, 1e-6, 2.0 ** -20, 1e5, 1.0 / wt.sum()])), (row, col)),
                 "zero-weight-pixels": run(np.where(zero, 1e3 * rng.random((h, w)), im), wt, (row, col)),
+                # masked bad pixels are typically NaN / inf in the data
+                "zero-weight-pixels-nonfinite": run(np.where(zero, [np.nan, np.inf, -np.inf][it % 3], im), wt, (row, col)),
                 "origin-negative": run(im, wt, (row - h, col - w)),
                 "larger-rmax": run(im, wt, (row, col), rmax + 3)[:, :rmax + 1],
             }
@@ -179,9 +181,31 @@ def oracle_invariance(ck, tier, deep):
             ck.violation(dict(site="Distributions", clause="exception"), rep, f"{type(e).__name__}: {e}")
             continue
         for name, val in checks.items():
-            if val.shape != base.shape or np.abs(val - base)[:, good].max() > tol:
+            if val.shape != base.shape or not (np.abs(val - base)[:, good].max() <= tol):
                 ck.violation(dict(site="Distributions", clause=name), rep,
                              f"{name}: results differ by {np.abs(val - base)[:, good].max() if val.shape == base.shape else 'shape'}")
+    # weight scaling at the higher orders (4 and more angular terms use a general matrix inverse with a degeneracy test), for weights
+    # in any unit: inverse variances of order 1e-13 or 1e+12 are as good as weights of order 1
+    for it in range(8 if not deep else 60):
+        n = int(rng.choice([61, 71, 81]))
+        odd = bool(it % 2)
+        order = int(rng.choice([3, 4, 5] if odd else [6, 8]))
+        method = ["nearest", "linear"][int(rng.integers(0, 2))]
+        im = rng.random((n, n))
+        wt = rng.uniform(1, 2, size=(n, n))
+        s = float(rng.choice([1e-13, 1e-20, 1e-11, 1e12, 3e-16]))
+        ck.count(("S.inv-scale", order, odd, method, s), suite="S.invariances")
+        rep = dict(shape=[n, n], order=order, odd=odd, method=method, weight_scale=s)
+        try:
+            a = quiet(Distributions(origin="cc", rmax=n // 2 - 3, order=order, odd=odd, weights=wt, method=method).image, im).cos()
+            b = quiet(Distributions(origin="cc", rmax=n // 2 - 3, order=order, odd=odd, weights=wt * s, method=method).image, im).cos()
+        except Exception as e:
+            ck.violation(dict(site="Distributions", clause="exception"), rep, f"{type(e).__name__}: {e}")
+            continue
+        good = slice(max(14, 3 * order), None)
+        if a.shape != b.shape or not (np.abs(a - b)[:, good].max() <= 1e-6 * max(1.0, np.abs(a[:, good]).max())):
+            ck.violation(dict(site="Distributions", clause="weight-scaling"), rep,
+                         f"weights x {s:g} (order {order}, odd={odd}): results differ by {np.abs(a - b)[:, good].max() if a.shape == b.shape else 'shape'}")
     # the same invariances where no folding happens (origin in a corner or on an edge), up to rmax='all', with and without weights,
     # and for the same pixels stored column-major (transposed views, np.rot90, Fortran/MATLAB data): layout is not part of the image
     for it in range(60 if not deep else 600):
